@@ -1,10 +1,13 @@
 """C05 - dimensionally incompatible operations fail loudly and change nothing.
 
 Decided by Barril/Props/C05.lean: error-decision theorems for conversion, creation, simple-operand
-arithmetic and ordering, and `failed_step_invisible(_in_history)`: in every reachable session state
-every operation answers as on a fresh session, so a failure (indeed any operation) is invisible to
-all later ones.  Tie: histories of operations on a private POSC database, executed on the real
-code and on the session model (`drv_fail`), compared step by step."""
+arithmetic and ordering (`orderQ_cross_type_error`: also for derived operands whose unit STRINGS
+coincide), and `failed_step_invisible(_in_history)` / `failed_xstep_invisible(_in_history)`: in every
+reachable session state every operation answers as on a fresh session over the current registry, so a
+failure (indeed any operation) is invisible to all later ones; `reregistration_answers_as_fresh`: after
+AddCategory/AddUnit everything answers as on a fresh session over the NEW registry.  Tie: histories
+of operations (registrations included) on private POSC databases, executed on the real code and on
+the session model (`drv_fail`), compared step by step."""
 import translate
 from common import close, err_kind, exact, qparse, qstr, sym, unsym
 
@@ -19,11 +22,23 @@ RULE = ("histories (<= 60 operations) over a private POSC database: every ordere
         "Quantity.CreateDerived and ObtainQuantity(dict) with a foreign unit under a category, failing sums whose "
         "left operand is a hand-built or numpy-backed derived value (operand snapshots), legacy-"
         "spelled foreign units, the Unknown type, repeated failures (memo path) and interleaved valid operations "
-        "on units and categories of one type; distinct = distinct operation; non-trivial = the operation mixes "
+        "on units and categories of one type; ordering (< <= > >=, sorted, min, max) of simple and derived values "
+        "obtained from composing maps (dict, list form, unpickling, products), systematically every pair read off "
+        "the table whose unit strings coincide across quantity types (unit s, exponent n with s+str(n) a unit of "
+        "another type: (m/s)^2 against m/s2), in both orders, inside products, with equal-dimension controls; "
+        "histories with registrations in the middle (AddCategory of a new or existing category, override=True to "
+        "another quantity type, back again, AddUnit with a default category, rejected registrations) and the same "
+        "creations before and after them: Scalar(v, unit), ObtainQuantity(unit), Scalar((v, unit)), the dict / "
+        "list / pickle / CreateDerived forms, simple creation, checks, conversions, sums, orderings; distinct = "
+        "distinct operation; non-trivial = the operation mixes "
         "two quantity types or follows a failed operation in its history")
 EXHAUSTIVE = {"quick": False, "thorough": False}
 ASSUMPTIONS = ["derived operands of + and - stand in the model as simple operands of the same quantity types (their arithmetic is engine Alg, C03); object aliasing by C13",
-               "float results within K*eps*M of the exact model (checked, not proved)"]
+               "float results within K*eps*M of the exact model (checked, not proved)",
+               "the dimension vector of a value is its map quantity type -> exponent (the library's notion); an "
+               "unpickled Quantity is the call of _ObtainReduced its __reduce__ writes",
+               "ObtainQuantity(unit) for a unit string that a second legacy fixing would change again is outside "
+               "the history-independence theorems (XOp.Tame; the model itself follows the code there)"]
 
 
 def setup(ctx):
@@ -49,6 +64,21 @@ def setup(ctx):
                     if s not in db.unit_to_unit_info:
                         leg.append((qt, s))
     ctx.legacy = sorted(set(leg))
+    # colliding unit strings, read off the table: a unit symbol s of one quantity type and an exponent n such that
+    # s + str(n) is itself the symbol of a unit of ANOTHER quantity type (the unit string of a power is written by
+    # appending the exponent: (m/s)^2 reads 'm/s2', the acceleration unit)
+    col = []
+    for qt in ctx.types:
+        for u in ctx.units[qt]:
+            for n in (2, 3, 4, 5, 6):
+                info = db.unit_to_unit_info.get(u + str(n))
+                if info is not None and info.quantity_type != qt and cats.get(qt) and cats.get(info.quantity_type):
+                    col.append((qt, u, n, info.quantity_type, u + str(n)))
+    # first the pairs whose dimensions differ beyond doubt: a quotient a/b with a numerator other than 1, where
+    # (a/b)^n and a/b^n differ by a^(n-1)
+    col.sort(key=lambda c: (not ("/" in c[1] and not c[1].startswith("1/")), c[1], c[2]))
+    ctx.collide = col
+    ctx.notes["colliding unit strings in the table"] = len(col)
 
 
 def _cat(ctx, rng, qt):
@@ -134,7 +164,33 @@ def _expand(op):
     return [op]
 
 
+def _ents(es):
+    return [dict(c=str(sym(c)), u=str(sym(u)), e=int(e)) for c, u, e in es]
+
+
+def _cmpq_model(op):
+    """the comparison the real call performs, as the model's `cmpq` (operator, left, right, values):
+    `sorted([X, Y])` and `min(X, Y)` evaluate `Y < X`, `max(X, Y)` evaluates `Y > X`"""
+    via = op.get("via", "op")
+    if via == "op":
+        return op["f"], op["a"], op["b"], op["x"], op["y"]
+    return ("gt" if via == "max" else "lt"), op["b"], op["a"], op["y"], op["x"]
+
+
 def _encode(op):
+    k = op["k"]
+    if k == "createu":
+        return dict(k="createu", u=str(sym(op["u"])))
+    if k == "createdict":
+        return dict(k="createdict", validate=op["how"] == "CreateDerived", es=_ents(op["es"]))
+    if k == "cmpq":
+        f, a, b, x, y = _cmpq_model(op)
+        return dict(k="cmpq", f=f, a=_ents(a), b=_ents(b), x=qstr(exact(x)), y=qstr(exact(y)))
+    if k == "addcat":
+        return dict(k="addcat", c=str(sym(op["c"])), qt=str(sym(op["qt"])), override=bool(op["override"]))
+    if k == "addunit":
+        return dict(k="addunit", qt=str(sym(op["qt"])), name=str(sym(op["name"])), u=str(sym(op["u"])),
+                    dc=str(sym(op["dc"])) if op.get("dc") else "0", scale=qstr(exact(op["scale"])))
     o = dict(k=op["k"])
     for key, v in op.items():
         if key in ("c", "u", "v", "cq", "c1", "u1", "c2", "u2"):
@@ -144,6 +200,9 @@ def _encode(op):
         elif key == "f":
             o[key] = v
     return o
+
+
+REG_KINDS = ("addcat", "addunit")
 
 
 def _history(ops):
@@ -225,14 +284,210 @@ def _gen(ctx, salt, all_ops, n_random):
         yield _history(ops)
 
 
+_CMPS = ["lt", "le", "gt", "ge"]
+
+
+def _cmpq(rng, a, b, x, y, plain=False):
+    via = "op" if plain else rng.choice(["op", "op", "op", "sorted", "max", "min"])
+    build = "dict" if plain else rng.choice(["dict", "dict", "pow", "list", "pickle"])
+    return dict(k="cmpq", f=rng.choice(_CMPS), a=a, b=b, x=x, y=y, via=via, build=build)
+
+
+def _gen_collide(ctx, salt, pairs, n_random):
+    """ordering of values of different dimensions, in particular of those whose unit STRINGS coincide"""
+    rng = ctx.fresh_rng("C05c" + salt)
+    buf = []
+    for (s_t, s, n, t_t, t) in pairs:
+        cs, ct = _cat(ctx, rng, s_t), _cat(ctx, rng, t_t)
+        x, y = rng.choice([-5.0, -0.75, -300.0]), rng.choice([2.0, 9.8, 1000.0])
+        power, plain = [(cs, s, n)], [(ct, t, 1)]
+        buf.append(_cmpq(rng, power, plain, x, y))
+        buf.append(_cmpq(rng, plain, power, y, x))
+        r = rng.random()
+        if r < 0.5:
+            # controls: powers of equal dimension are ordered, so are plain values of the colliding unit
+            buf.append(_cmpq(rng, power, [(cs, s, n)], x, y))
+            buf.append(dict(k="cmp", f=rng.choice(_CMPS), c1=ct, u1=t, c2=ct, u2=rng.choice(ctx.units[t_t]), x=x, y=y))
+        elif r < 0.7:
+            # equal dimension written in another unit of the type (the conversion of a power is refused)
+            buf.append(_cmpq(rng, power, [(cs, rng.choice(ctx.units[s_t]), n)], x, y))
+        elif r < 0.85:
+            # the colliding unit inside a product: different dimension vectors, different strings
+            o_t = rng.choice(ctx.types)
+            if ctx.cats.get(o_t):
+                extra = (_cat(ctx, rng, o_t), rng.choice(ctx.units[o_t]), rng.choice([1, -1, 2]))
+                buf.append(_cmpq(rng, power + [extra], plain + [extra], x, y))
+                buf.append(_cmpq(rng, power + [extra], power, x, y))
+        if len(buf) >= 50:
+            yield _history(buf)
+            buf = []
+    if buf:
+        yield _history(buf)
+    typed = [t for t in ctx.types if ctx.cats.get(t)]
+    for _ in range(n_random):
+        ops = []
+        for _ in range(rng.randint(4, 20)):
+            def ents(k):
+                out = []
+                for _ in range(k):
+                    t = rng.choice(typed)
+                    out.append((_cat(ctx, rng, t), rng.choice(ctx.units[t]), rng.choice([1, 1, -1, 2, -2, 3])))
+                # a category occurs once in a composing map
+                seen, uniq = set(), []
+                for e in out:
+                    if e[0] not in seen:
+                        seen.add(e[0])
+                        uniq.append(e)
+                return uniq
+            a = ents(rng.choice([1, 1, 2, 3]))
+            r = rng.random()
+            if r < 0.3:
+                b = list(a)                                  # the same quantity
+            elif r < 0.45:
+                b = list(reversed(a))                        # the same entries in another order
+            elif r < 0.6:
+                b = [(c, u, e + 1) for c, u, e in a]          # other exponents
+            elif r < 0.75:
+                # the same dimension vector written in other units (a conversion of a composed unit: refused)
+                tys = {c: t for t in typed for c in ctx.cats[t]}
+                b = [(c, rng.choice(ctx.units[tys[c]]), e) for c, u, e in a]
+            else:
+                b = ents(rng.choice([1, 2]))
+            x, y = rng.choice([-5.0, -0.75, -300.0]), rng.choice([2.0, 9.8, 1000.0])
+            op = _cmpq(rng, a, b, x, y)
+            if op["build"] == "pow":
+                op["build"] = "dict"
+            ops.append(op)
+            if rng.random() < 0.3:
+                ops.append(dict(k="createdict", es=rng.choice([a, b]), how=rng.choice(["dict", "list", "pickle", "CreateDerived"])))
+            if rng.random() < 0.2:
+                ops += _valid_ops(ctx, rng, rng.choice(typed))
+            if rng.random() < 0.25:
+                # Scalar(v, unit) / ObtainQuantity(unit): the category comes from the unit (legacy spellings, names
+                # that are no unit, units met before under another spelling)
+                t = rng.choice(typed)
+                u = rng.choice([rng.choice(ctx.units[t]), rng.choice(ctx.units[t]), "not a unit", "<unknown>"]
+                               + ([rng.choice(ctx.legacy)[1]] * 2 if ctx.legacy else []))
+                ops.append(dict(k="createu", u=u, how=rng.choice(["scalar", "obtain", "tuple"])))
+                if rng.random() < 0.3:
+                    ops.append(dict(ops[-1], how=rng.choice(["scalar", "obtain", "tuple"])))
+        yield _history(ops)
+
+
+_NEW_CATS = ["stroke", "my category", "reach of arm", "Custom/1"]
+_NEW_UNITS = ["smoot", "armlen", "u_x", "zork"]
+
+
+def _gen_reg(ctx, salt, n_hist):
+    """histories with registrations in the middle: a category moves to another quantity type (AddCategory with
+    override=True), a unit is added; before and after it the same creations are requested"""
+    rng = ctx.fresh_rng("C05r" + salt)
+    typed = [t for t in ctx.types if ctx.cats.get(t) and len(ctx.units[t]) >= 2 and t not in ("Unknown", "dimensionless")]
+    hows_d = ["dict", "list", "pickle", "CreateDerived"]
+    for _ in range(n_hist):
+        a_t = rng.choice(typed)
+        b_t = rng.choice([t for t in typed if t != a_t])
+        o_t = rng.choice([t for t in typed if t not in (a_t, b_t)])
+        ops = []
+        existing = rng.random() < 0.3
+        if existing:
+            # an existing category is re-registered (also the one named as the quantity type: the default category
+            # of every unit of the type without one)
+            C = a_t if (a_t in ctx.cats[a_t] and rng.random() < 0.5) else _cat(ctx, rng, a_t)
+        else:
+            C = rng.choice(_NEW_CATS)
+            ops.append(dict(k="addcat", c=C, qt=a_t, override=rng.random() < 0.3))
+        ua, ua2 = rng.sample(ctx.units[a_t], 2)
+        ub, ub2 = rng.sample(ctx.units[b_t], 2)
+        co, uo = _cat(ctx, rng, o_t), rng.choice(ctx.units[o_t])
+        new_u = None
+        if rng.random() < 0.7:
+            new_u = rng.choice(_NEW_UNITS)
+            scale = rng.choice([1.7018, 0.5, 12.0, 1000.0])
+            addu = dict(k="addunit", qt=a_t, name=new_u + " name", u=new_u, dc=C if rng.random() < 0.8 else None, scale=scale)
+            if rng.random() < 0.3:
+                # asked for before it exists: the refusal must not be remembered
+                ops.append(dict(k="create", c=C, u=new_u))
+                ops.append(dict(k="createu", u=new_u, how="scalar"))
+            ops.append(addu)
+        x, y = rng.choice([-5.0, -0.75, -300.0]), rng.choice([2.0, 9.8, 1000.0])
+        dent = [(C, ua, 1), (co, uo, -1)]
+        dent2 = [(co, uo, 1), (C, new_u or ua2, rng.choice([2, -1]))]
+        # default-category units of the category, when it is an existing one
+        dflt = [u for u in ctx.units[a_t] if (ctx.db.unit_to_unit_info[u].default_category or a_t) == C]
+
+        def uses():
+            out = [dict(k="create", c=C, u=ua), dict(k="create", c=C, u=ua2),
+                   dict(k="createdict", es=dent, how=rng.choice(hows_d)),
+                   dict(k="createdict", es=dent, how=rng.choice(hows_d)),
+                   dict(k="createdict", es=dent2, how=rng.choice(hows_d)),
+                   dict(k="createdict", es=[(C, ua, 1)], how=rng.choice(hows_d)),
+                   dict(k="check", c=C, u=ua),
+                   dict(k="check", c=C, u=ub),
+                   dict(k="create", c=C, u=ub),
+                   dict(k="createdict", es=[(C, ub, 1), (co, uo, -1)], how=rng.choice(hows_d)),
+                   dict(k="convert", cq=C, u=ua, v=ua2, x=x),
+                   dict(k="convert", cq=C, u=ub, v=ub2, x=y),
+                   _cmpq(rng, dent, dent, x, y, plain=True),
+                   _cmpq(rng, dent, [(C, ub, 1), (co, uo, -1)], x, y, plain=True),
+                   dict(k="cmp", f=rng.choice(_CMPS), c1=C, u1=ua, c2=_cat(ctx, rng, b_t), u2=ub, x=x, y=y),
+                   dict(k="cmp", f=rng.choice(_CMPS), c1=C, u1=ub, c2=_cat(ctx, rng, b_t), u2=ub2, x=x, y=y),
+                   dict(k="arith", f=rng.choice(["add", "sub"]), c1=C, u1=ua, c2=_cat(ctx, rng, a_t), u2=ua2, x=x, y=y),
+                   dict(k="arith", f=rng.choice(["add", "sub"]), c1=C, u1=ub, c2=_cat(ctx, rng, b_t), u2=ub2, x=x, y=y),
+                   dict(k="getvalue", w=rng.choice(["scalar", "array", "fraction"]), c=C, u=ua, v=ua2, x=x)]
+            if new_u:
+                out += [dict(k="createu", u=new_u, how=rng.choice(["scalar", "obtain", "tuple"])),
+                        dict(k="createu", u=new_u, how=rng.choice(["scalar", "obtain", "tuple"])),
+                        dict(k="create", c=C, u=new_u),
+                        dict(k="convert", cq=rng.choice([C, a_t]), u=new_u, v=ua, x=x),
+                        dict(k="createdict", es=[(C, new_u, 2)], how=rng.choice(hows_d))]
+            for u in dflt[:3]:
+                out.append(dict(k="createu", u=u, how=rng.choice(["scalar", "obtain", "tuple"])))
+            out.append(dict(k="createu", u=rng.choice(ctx.units[a_t]), how=rng.choice(["scalar", "obtain", "tuple"])))
+            rng.shuffle(out)
+            return out[:rng.randint(6, len(out))]
+
+        def bad_regs():
+            return [rng.choice([
+                dict(k="addcat", c=C, qt=b_t, override=False),             # registered already
+                dict(k="addcat", c=rng.choice(_NEW_CATS), qt="no such type", override=rng.random() < 0.5),
+                dict(k="addunit", qt=b_t, name="again", u=rng.choice([ua, ub, uo]), dc=None, scale=2.0),
+                dict(k="addunit", qt=a_t, name="again", u=new_u or ua, dc=C, scale=2.0),
+            ])]
+
+        ops += uses()
+        if rng.random() < 0.5:
+            ops += bad_regs() + uses()[:4]
+        ops.append(dict(k="addcat", c=C, qt=b_t, override=True))
+        ops += uses()
+        r = rng.random()
+        if r < 0.3:
+            ops += bad_regs() + uses()[:5]
+        elif r < 0.6:
+            ops.append(dict(k="addcat", c=C, qt=rng.choice([a_t, o_t]), override=True))   # and moves again
+            ops += uses()
+        elif r < 0.75 and new_u:
+            ops.append(dict(k="addunit", qt=b_t, name="late", u=new_u + "2", dc=C, scale=3.0))
+            ops += [dict(k="createu", u=new_u + "2", how="scalar"), dict(k="create", c=C, u=new_u + "2")] + uses()[:5]
+        yield _history(ops)
+
+
 def cases(ctx):
+    col = ctx.collide
     if ctx.tier == "quick":
         yield from _gen(ctx, "q", False, 300)
+        rng = ctx.fresh_rng("C05pick")
+        rest = col[12:]
+        yield from _gen_collide(ctx, "q", col[:12] + (rng.sample(rest, min(36, len(rest)))), 60)
+        yield from _gen_reg(ctx, "q", 120)
     else:
         yield from _gen(ctx, "t", True, 3000)
         # two more passes over all ordered type pairs with other seeded units, categories and values
         yield from _gen(ctx, "t2", True, 0)
         yield from _gen(ctx, "t3", True, 0)
+        yield from _gen_collide(ctx, "t", col, 600)
+        yield from _gen_collide(ctx, "t2", col, 0)
+        yield from _gen_reg(ctx, "t", 1500)
 
 
 def model_line(c):
@@ -241,6 +496,49 @@ def model_line(c):
 
 def show(c):
     return c["_t"]["ops"][:6]
+
+
+class _PickledQuantity:
+    """pickles to exactly what a `Quantity` with these composing entries pickles to: a call of
+    `_ObtainReduced` with the state list of `Quantity.__reduce__` (entries, then the caption `None`)"""
+
+    def __init__(self, es):
+        self.es = es
+
+    def __reduce__(self):
+        from barril.units._quantity import _ObtainReduced
+
+        return _ObtainReduced, ([(c, [u, e]) for c, u, e in self.es] + [None],)
+
+
+def _obtain_entries(es, how):
+    """a quantity from its composing entries [(category, unit, exponent)] through one of the public forms"""
+    import pickle
+    from collections import OrderedDict
+    from barril.units import ObtainQuantity
+    from barril.units._quantity import Quantity
+
+    if how == "CreateDerived":
+        return Quantity.CreateDerived(OrderedDict((c, [u, e]) for c, u, e in es))
+    if how == "list":
+        return ObtainQuantity([(u, e) for _c, u, e in es], [c for c, _u, _e in es])
+    if how == "pickle":
+        return pickle.loads(pickle.dumps(_PickledQuantity(es)))
+    return ObtainQuantity(OrderedDict((c, [u, e]) for c, u, e in es))
+
+
+def _value_of(es, x, build):
+    """a Scalar of value x whose quantity has the composing entries es; `pow`: a single entry (c, u, n), n >= 2,
+    as the product Scalar(x, u, c) * Scalar(1, u, c) * ... (n factors)"""
+    from barril.units import Scalar
+
+    if build == "pow" and len(es) == 1 and es[0][2] >= 2:
+        c, u, n = es[0]
+        r = Scalar(x, u, c)
+        for _ in range(n - 1):
+            r = r * Scalar(1.0, u, c)
+        return r
+    return Scalar.CreateWithQuantity(_obtain_entries(es, build if build in ("list", "pickle") else "dict"), x)
 
 
 def _run_op(db, op):
@@ -323,6 +621,45 @@ def _run_op(db, op):
             if after != before:
                 return dict(err="other", detail="the left operand changed: %r -> %r" % (before[2], after[2]))
             return out
+        if k == "createu":
+            from barril.units import ObtainQuantity
+
+            how = op.get("how", "scalar")
+            if how == "obtain":
+                q = ObtainQuantity(op["u"])
+                return dict(ok=dict(cat=q.GetCategory(), unit=q.GetUnit()))
+            s = Scalar(1.0, op["u"]) if how == "scalar" else Scalar((1.0, op["u"]))
+            return dict(ok=dict(cat=s.GetCategory(), unit=s.GetUnit()))
+        if k == "createdict":
+            q = _obtain_entries(op["es"], op["how"])
+            return dict(ok=dict(cat=q.GetCategory(), unit=q.GetUnit(), qt=q.GetQuantityType(), derived=bool(q.IsDerived())))
+        if k == "cmpq":
+            import operator
+
+            via = op.get("via", "op")
+            if via == "op":
+                X = _value_of(op["a"], op["x"], op.get("build", "dict"))
+                Y = _value_of(op["b"], op["y"], op.get("build", "dict"))
+                r = dict(lt=operator.lt, le=operator.le, gt=operator.gt, ge=operator.ge)[op["f"]](X, Y)
+                return dict(ok=dict(b=bool(r)))
+            # sorted([X, Y]) / min(X, Y) / max(X, Y): the comparison is `Y < X` (`Y > X` for max); the right
+            # operand of the call is the left operand of the comparison, so it is built first
+            Y = _value_of(op["b"], op["y"], op.get("build", "dict"))
+            X = _value_of(op["a"], op["x"], op.get("build", "dict"))
+            if via == "sorted":
+                r = sorted([X, Y])[0] is Y
+            elif via == "min":
+                r = min(X, Y) is Y
+            else:
+                r = max(X, Y) is Y
+            return dict(ok=dict(b=bool(r)))
+        if k == "addcat":
+            db.AddCategory(op["c"], op["qt"], override=bool(op["override"]))
+            return dict(ok=None)
+        if k == "addunit":
+            db.AddUnit(op["qt"], op["name"], op["u"], "%f / " + repr(float(op["scale"])), "%f * " + repr(float(op["scale"])),
+                       default_category=op.get("dc") or None)
+            return dict(ok=None)
         a = Scalar(op["x"], op["u1"], op["c1"])
         b = Scalar(op["y"], op["u2"], op["c2"])
         if k == "arith":
@@ -342,18 +679,35 @@ def _fresh(db):
     db._category_unit_valid.clear()
 
 
+def _private_db():
+    from barril.units.unit_database import UnitDatabase
+
+    db = UnitDatabase()
+    UnitDatabase.FillUnitDatabaseWithPosc(db)
+    return db
+
+
 def impl(c, ctx):
     from barril.units.unit_database import UnitDatabase
 
-    db = ctx.db
-    _fresh(db)
+    ops = c["_t"]["ops"]
+    if any(op["k"] in REG_KINDS for op in ops):
+        db = _private_db()      # a history with registrations gets a database of its own
+    else:
+        db = ctx.db
+        _fresh(db)
     UnitDatabase.PushSingleton(db)
     try:
-        outs = [_run_op(db, op) for op in c["_t"]["ops"]]
+        outs = []
+        for op in ops:
+            o = _run_op(db, op)
+            if "ok" in o and op["k"] in ("convert", "getvalue"):
+                o["omag"] = _offset_mag(db, op)   # read from the registry as it is at this point of the history
+            outs.append(o)
     finally:
         UnitDatabase.PopSingleton()
     n = ctx.notes.setdefault("operations", {})
-    for op, o in zip(c["_t"]["ops"], outs):
+    for op, o in zip(ops, outs):
         key = op["k"] + ("/" + o["err"] if "err" in o else "/ok")
         n[key] = n.get(key, 0) + 1
     return dict(outs=outs)
@@ -388,9 +742,11 @@ def _agree_op(op, io, mo, extra_mag=0.0):
         return None  # both accept: the model's stand-in is the simple creation, the derived strings are C07's/C20's
     if a is None or b is None:
         return None if a is None and b is None else "shape"
-    for key in ("cat", "unit"):
+    for key in ("cat", "unit", "qt"):
         if (key in a) != (key in b) or (key in a and a[key] != unsym(int(b[key]))):
             return "%s differs: impl=%s model=%s" % (key, a.get(key), unsym(int(b[key])) if key in b else None)
+    if a.get("derived") != b.get("derived"):
+        return "derived flag differs: impl=%s model=%s" % (a.get("derived"), b.get("derived"))
     if "b" in a or "b" in b:
         if a.get("b") != b.get("b"):
             # a verdict decided inside float rounding is a don't-care: the generator keeps operands apart
@@ -417,7 +773,7 @@ def agree(c, io, mo, ctx):
             if "err" in earlier:  # the object could not even be created: that is the outcome of the whole step
                 b = earlier
                 break
-        why = _agree_op(op, a, b, _offset_mag(ctx.db, op) if "ok" in a and op["k"] in ("convert", "getvalue") else 0.0)
+        why = _agree_op(op, a, b, a.get("omag", 0.0))
         if why:
             return "step %d %s: %s" % (i, op, why)
     return None
@@ -476,9 +832,9 @@ def _must_fail(db, op):
     if k == "getvalue":
         t = cat_type(op["c"])
         tu, tv = _qt(db, None, op["u"]), _qt(db, None, op["v"])
-        if None in (t, tu, tv) or t == "Unknown" or tu != t:
+        if None in (t, tu, tv) or t == "Unknown":
             return None
-        return "units" if tv != t else None
+        return "units" if (tu != t or tv != t) else None
     if k == "createderived":
         t = cat_type(op["c"])
         tu = _qt(db, None, op["u"])
@@ -495,6 +851,42 @@ def _must_fail(db, op):
         if None in (t1, t2) or "Unknown" in (t1, t2) or t1 == t2:
             return None
         return "units"
+    def vec(es):
+        """joined quantity-type exponents of composing entries (the dimension vector); "mismatch" when the unit of
+        an entry is of another quantity type than its category; None when the property does not say (names that
+        are not registered, the Unknown type)"""
+        v = {}
+        for c, u, e in es:
+            t, tu = cat_type(c), _qt(db, None, u)
+            if t is None or tu is None or t == "Unknown":
+                return None
+            if tu != t:
+                return "mismatch"
+            if t != "dimensionless":
+                v[t] = v.get(t, 0) + e
+        return {t: e for t, e in v.items() if e != 0}
+
+    if k == "createu":
+        # Scalar(v, unit): the category is the unit's default category (else the category named as its type)
+        info = db.unit_to_unit_info.get(op["u"])
+        if info is None:
+            return None
+        c = info.default_category or (info.quantity_type if info.quantity_type in cats else None)
+        t = cat_type(c) if c else None
+        if t is None or t == "Unknown":
+            return None
+        return "units" if info.quantity_type != t else None
+    if k == "createdict":
+        return "units" if vec(op["es"]) == "mismatch" else None
+    if k == "cmpq":
+        va, vb = vec(op["a"]), vec(op["b"])
+        if va is None or vb is None:
+            return None
+        if "mismatch" in (va, vb):
+            return "units"
+        if not va or not vb:      # a dimensionless operand: exempt
+            return None
+        return "type" if va != vb else None
     if k in ("arith", "cmp"):
         t1, t2 = cat_type(op["c1"]), cat_type(op["c2"])
         tu1, tu2 = _qt(db, None, op["u1"]), _qt(db, None, op["u2"])
@@ -510,13 +902,13 @@ def oracle(c, ctx):
 
     ops = c["_t"]["ops"]
 
-    def run_all(keep):
+    def run_all(keep, upto=None):
         db = UnitDatabase()
         UnitDatabase.FillUnitDatabaseWithPosc(db)
         UnitDatabase.PushSingleton(db)
         outs = []
         try:
-            for i, op in enumerate(ops):
+            for i, op in enumerate(ops if upto is None else ops[:upto + 1]):
                 if not keep(i):
                     outs.append(None)
                     continue
@@ -547,10 +939,38 @@ def oracle(c, ctx):
             if i not in failed and a != b:
                 return dict(clause="a later operation behaves differently after an earlier failure",
                             step=i, op=ops[i], with_failures=a, without=b, failed_steps=sorted(failed)[:10])
+        # an operation that fails in the history although it succeeds on a database object with empty memo tables
+        # over the same registry (the successful registrations before it): when it also succeeds in the history
+        # without the earlier failed steps, the failures are what made it fail
+        ref = _private_db()
+        UnitDatabase.PushSingleton(ref)
+        suspects = []
+        try:
+            for j, op in enumerate(ops):
+                if op["k"] in REG_KINDS:
+                    if "err" not in outs[j]:
+                        _fresh(ref)
+                        _run_op(ref, op)
+                elif j in failed and any(i < j for i in failed):
+                    _fresh(ref)
+                    if "err" not in _run_op(ref, op):
+                        suspects.append(j)
+        finally:
+            UnitDatabase.PopSingleton()
+        for j in suspects[:3]:
+            earlier = {i for i in failed if i < j}
+            outs3, f = run_all(lambda i: i not in earlier, upto=j)
+            if f:
+                return f
+            if "err" not in outs3[j]:
+                return dict(clause="a later valid operation fails because of an earlier failure", step=j, op=ops[j],
+                            with_failures=outs[j], without=outs3[j], failed_steps=sorted(earlier)[:10])
     return None
 
 
 def search(ctx):
+    yield from _gen_collide(ctx, "s", ctx.collide, 100)
+    yield from _gen_reg(ctx, "s", 150 if ctx.tier == "quick" else 1500)
     yield from _gen(ctx, "s", ctx.tier != "quick", 500)
 
 
